@@ -107,6 +107,7 @@ type WriterV struct {
 
 type ChanState struct {
 	Env    bool
+	Budget int // Env only: > 0 = number of receives the environment still provides (then silent); 0 = unlimited
 	Cap    int
 	Q      []Value
 	Closed bool
